@@ -20,7 +20,9 @@ for d in $HERE/seeded/*/; do
   [ "$SELFTEST_ONLY" = "harmless" ] && break
   id=$(basename $d); prop=${id%%-*}
   [ -n "$FILTER" ] && ! echo " $FILTER " | grep -q " $prop " && continue
-  run_one $prop $d/patch.diff 1 "seeded/$id"
+  # a seed recorded as NOT detected (meta.json "detected": false; reasons in DESIGN.md section 8) is expected to stay at exit 0
+  want=1; grep -q '"detected": false' $d/meta.json 2>/dev/null && want=0
+  run_one $prop $d/patch.diff $want "seeded/$id$([ $want = 0 ] && echo ' (recorded miss)')"
 done
 for p in $HERE/harmless/*.diff; do
   [ "$SELFTEST_ONLY" = "seeded" ] && break
